@@ -21,9 +21,9 @@ import ast
 from ..core import AnalysisError, norm, short
 from .. import effects
 from ..loader import ClassInfo
-from .dispatch import DispatchView
+from .dispatch import DispatchView, strip_not, resolve_local, run_group
 from .common import (cfg_of, fkey, conds, has_cond, cond_texts, stmts_of, walk_body, call_tail, call_name, returns_of,
-                     raises_of, raise_type, stmt_of, kwarg, names_loaded)
+                     raises_of, raise_type, stmt_of, kwarg, names_loaded, implies_absent, implies_present)
 
 APP, ROUTE, ERR = 'clastic.application', 'clastic.route', 'clastic.errors'
 REORDER = {'sort', 'reverse', 'remove', 'pop', 'clear', 'extend', 'append', 'insert', '__setitem__', '__delitem__'}
@@ -59,8 +59,6 @@ def routes_writer_ok(m, fi, e):
 def run(rep):
     repo = rep.repo
     app, route, err = repo.mod(APP), repo.mod(ROUTE), repo.mod(ERR)
-    dv = DispatchView(repo)
-    cfg, f = dv.cfg, dv.fi
     rep.decide('R06.a insertion order; R06.b dispatch-loop typestate; R06.c sentinel priority; R06.d method '
                'normalisation; R06.e 405 carries Allow')
     rep.decline('which pattern matches a path (C05); response bodies')
@@ -70,30 +68,51 @@ def run(rep):
     rep.rule('R06.d', 'method normalisation in Route.__init__ / match_method / update_methods')
     rep.rule('R06.e', 'provenance: allowed_methods -> headers["Allow"]')
 
-    # ---- R06.a -----------------------------------------------------------
-    # positive control: the detector must see a reordering write in an embedded example
-    ctl = ast.parse('class X:\n    def f(self, app):\n        app.routes.sort()\n        self.routes = sorted(self.routes)\n')
-    n_ctl = 0
-    for fn in ast.walk(ctl):
-        if isinstance(fn, ast.FunctionDef):
-            for e in effects.effects_in(fn):
-                ch = e.chain or []
-                if 'routes' in ch:
-                    n_ctl += 1
-    if n_ctl != 2:
-        raise AnalysisError('positive control for the .routes writer detector failed (%d)' % n_ctl)
-    for m, fi, e in routes_writers(repo):
-        ok = routes_writer_ok(m, fi, e)
-        rep.check('R06.a', 'writer::%s::%s' % (fi.key, norm(e.node)[:80]), ok,
-                  'documented set-up write of the routing table' if ok else
-                  '%s writes a routing table (%s): routes may be reordered / removed after insertion' % (fi.key, short(e.node)), m, e.node)
-    check_running_index(rep, 'R06.a')
-    it = norm(dv.loop.iter)
-    ok = it in ('self.routes + [self._null_route]', 'itertools.chain(self.routes, [self._null_route])', 'chain(self.routes, [self._null_route])')
-    rep.check('R06.a', fkey(f, 'iteration'), ok, 'dispatch walks self.routes in list order, then the null route' if ok else
-              'dispatch does not iterate self.routes + [null route] directly: %s' % it, app, dv.loop)
-    rep.floor('R06.a', 5)
-    _rest(rep, repo, app, route, err, dv, cfg, f)
+    def order_rules():
+        # ---- R06.a -----------------------------------------------------------
+        # positive control: the detector must see a reordering write in an embedded example
+        ctl = ast.parse('class X:\n    def f(self, app):\n        app.routes.sort()\n        self.routes = sorted(self.routes)\n')
+        n_ctl = 0
+        for fn in ast.walk(ctl):
+            if isinstance(fn, ast.FunctionDef):
+                for e in effects.effects_in(fn):
+                    ch = e.chain or []
+                    if 'routes' in ch:
+                        n_ctl += 1
+        if n_ctl != 2:
+            raise AnalysisError('positive control for the .routes writer detector failed (%d)' % n_ctl)
+        for m, fi, e in routes_writers(repo):
+            ok = routes_writer_ok(m, fi, e)
+            rep.check('R06.a', 'writer::%s::%s' % (fi.key, norm(e.node)[:80]), ok,
+                      'documented set-up write of the routing table' if ok else
+                      '%s writes a routing table (%s): routes may be reordered / removed after insertion' % (fi.key, short(e.node)), m, e.node)
+        check_running_index(rep, 'R06.a')
+
+    def loop_rules():
+        dv = DispatchView(repo)
+        cfg, f = dv.cfg, dv.fi
+        it = norm(dv.iter_expr)
+        ok = it in ('self.routes + [self._null_route]', '[*self.routes, self._null_route]', 'itertools.chain(self.routes, [self._null_route])',
+                    'chain(self.routes, [self._null_route])')
+        if ok and dv.iter_expr is not dv.loop.iter:
+            # the sequence is held in a local first: that local is read by the loop only (nobody re-orders it in between)
+            ok = isinstance(dv.loop.iter, ast.Name) and \
+                sum(1 for n in walk_body(f.node) if isinstance(n, ast.Name) and n.id == dv.loop.iter.id and isinstance(n.ctx, ast.Load)) == 1
+        rep.check('R06.a', fkey(f, 'iteration'), ok, 'dispatch walks self.routes in list order, then the null route' if ok else
+                  'dispatch does not iterate self.routes + [null route] directly: %s' % it, app, dv.loop)
+        _loop_rules(rep, repo, app, dv, cfg, f)
+
+    # each group is analysed on its own: a construct one group cannot follow does not hide the verdicts of the others
+    n_gaps = len(rep.gaps)
+    run_group(rep, order_rules)
+    run_group(rep, loop_rules)
+    if len(rep.gaps) == n_gaps:     # (the floors count instances of groups that ran to the end)
+        rep.guard(lambda: rep.floor('R06.a', 5))
+        rep.guard(lambda: rep.floor('R06.b', 9))
+    run_group(rep, _sentinel_rules, rep, repo, app, route)
+    run_group(rep, _method_rules, rep, repo, app, route)
+    rep.guard(lambda: rep.floor('R06.d', 12))
+    run_group(rep, _allow_rules, rep, repo, err)
 
 
 def check_running_index(rep, rule):
@@ -107,39 +126,84 @@ def check_running_index(rep, rule):
         rep.fail(rule, fkey(ad, 'single insert'), 'Application.add does not place routes with exactly one self.routes.insert(index, route) '
                  '(found %s): position / order of the inserted routes is not the running index' % [short(c) for c in ins], app, ad.node)
         return
-    idx = norm(ins[0].args[0])
     ins_st = stmt_of(app, ins[0])
     loop = [s for s in stmts_of(ad.node) if isinstance(s, ast.For) and ins_st in s.body]
-    incs = [s for s in stmts_of(ad.node) if isinstance(s, ast.AugAssign) and norm(s.target) == idx and isinstance(s.op, ast.Add)
-            and isinstance(s.value, ast.Constant) and s.value.value == 1]
-    ok = len(loop) == 1 and len(incs) == 1 and incs[0] in loop[0].body and loop[0].body.index(incs[0]) > loop[0].body.index(ins_st) \
-        and all(isinstance(b, (ast.Expr, ast.AugAssign)) for b in loop[0].body)
+    pos = ins[0].args[0] if ins[0].args else None
+    idx, ok = None, False
+    if len(loop) == 1 and len(ins[0].args) == 2 and not ins[0].keywords and isinstance(ins_st, ast.Expr):
+        lp = loop[0]
+        it = lp.iter
+        if isinstance(lp.target, ast.Name) and isinstance(pos, ast.Name):
+            # for r in routes: insert(i, r); i += 1
+            idx = pos.id
+            incs = [s for s in stmts_of(ad.node) if isinstance(s, ast.AugAssign) and norm(s.target) == idx]
+            ok = len(incs) == 1 and isinstance(incs[0].op, ast.Add) and isinstance(incs[0].value, ast.Constant) and incs[0].value.value == 1 and \
+                type(incs[0].value.value) is int and lp.body == [ins_st, incs[0]] and norm(ins[0].args[1]) == lp.target.id and \
+                not any(isinstance(s, ast.Assign) and idx in [norm(t) for t in s.targets] for s in stmts_of(lp))
+        elif isinstance(lp.target, ast.Tuple) and len(lp.target.elts) == 2 and all(isinstance(e, ast.Name) for e in lp.target.elts) and \
+                isinstance(it, ast.Call) and call_name(it) == 'enumerate' and it.args and not it.keywords:
+            # for k, r in enumerate(routes): insert(i + k, r)      /      for k, r in enumerate(routes, i): insert(k, r)
+            k, r = lp.target.elts[0].id, lp.target.elts[1].id
+            if len(it.args) == 1 and isinstance(pos, ast.BinOp) and isinstance(pos.op, ast.Add) and \
+                    sorted([type(pos.left).__name__, type(pos.right).__name__]) == ['Name', 'Name'] and k in (pos.left.id, pos.right.id):
+                idx = pos.right.id if pos.left.id == k else pos.left.id
+            elif len(it.args) == 2 and isinstance(it.args[1], ast.Name) and isinstance(pos, ast.Name) and pos.id == k:
+                idx = it.args[1].id
+            ok = idx is not None and idx != k and lp.body == [ins_st] and norm(ins[0].args[1]) == r and \
+                not any(isinstance(s, (ast.Assign, ast.AugAssign)) and idx in [norm(t) for t in (s.targets if isinstance(s, ast.Assign) else [s.target])]
+                        for s in stmts_of(lp))
     rep.check(rule, fkey(ad, 'running index'), ok, 'routes of one add() are inserted contiguously at index, index+1, ...' if ok else
               'add() does not insert at a running index (routes of one entry are reversed or interleaved)', app, ins_st)
+    if idx is None:
+        idx = norm(pos)
+    # the start index: the caller's, or len(self.routes) when the caller gave none
+    params = ad.params()
     dflt = [s for s in stmts_of(ad.node) if isinstance(s, ast.Assign) and norm(s.targets[0]) == idx]
-    ok = len(dflt) == 1 and norm(dflt[0].value) == 'len(self.routes)' and has_cond(conds(ad, dflt[0]), lambda t: norm(t) == '%s is None' % idx, True)
+    given = [p for p in params if any(isinstance(s, ast.Assign) and norm(s.targets[0]) == idx and
+                                      has_cond(conds(ad, s), lambda t: norm(t) == '%s is None' % p, True) for s in dflt)]
+    ok = len(given) == 1 and (idx == given[0] or idx not in params)
+    if ok:
+        p = given[0]
+        n_len = 0
+        for s in dflt:
+            cs = conds(ad, s)
+            if norm(s.value) == 'len(self.routes)' and has_cond(cs, lambda t: norm(t) == '%s is None' % p, True):
+                n_len += 1
+            elif norm(s.value) == p and has_cond(cs, lambda t: norm(t) == '%s is None' % p, False):
+                pass
+            else:
+                ok = False
+        ok = ok and n_len == 1 and (idx == p or len(dflt) == 2)
+        if ok and loop:
+            c_ = cfg_of(ad)
+            ok = c_.must_pass(c_.nodes_of_all(dflt), c_.entry, c_.nodes_of(loop[0])) if idx != p else True
     rep.check(rule, fkey(ad, 'default index'), ok, 'without an index, routes are appended (index = len(self.routes))' if ok else
               'default insertion index is not len(self.routes)', app, dflt[0] if dflt else ad.node)
 
 
-def _rest(rep, repo, app, route, err, dv, cfg, f):
+def _loop_rules(rep, repo, app, dv, cfg, f):
     # ---- R06.b -----------------------------------------------------------
     head = dv.head
-    # (i) no effect before the path test
-    first_two = dv.loop.body[:2]
-    ok = first_two and first_two[0] is dv.match_st and len(first_two) == 2 and isinstance(first_two[1], ast.If) and \
-        dv.is_nomatch(first_two[1].test) and len(first_two[1].body) == 1 and isinstance(first_two[1].body[0], ast.Continue)
+    # (i) no effect before the path test: the loop body starts with the match, its result is tested for None next, and the
+    #     no-match side does nothing but move on to the next route
+    nm = dv.nomatch_branches()
+    m_nodes = cfg.nodes_of(dv.match_st)
+    nxt = [m for n in m_nodes for m in cfg.succ[n] if (n, m) not in cfg.exc_edges]
+    tested_next = bool(nxt) and all(cfg.nodes[m].kind == 'head' and isinstance(cfg.nodes[m].stmt, ast.If) and
+                                    dv.nomatch_pol(strip_not(cfg.nodes[m].stmt.test)[0]) is not None for m in nxt)
+    after_nm = cfg.reach(nm, avoid=head, normal_only=True) - set(nm)
+    ok = bool(dv.loop.body) and dv.loop.body[0] is dv.match_st and tested_next and bool(nm) and \
+        all(cfg.nodes[m].kind == 'stmt' and isinstance(cfg.nodes[m].stmt, (ast.Continue, ast.Pass)) for m in after_nm) and \
+        bool(set(head) & cfg.reach(nm, normal_only=True)) and cfg.exit not in cfg.reach(nm, avoid=head)
     rep.check('R06.b', fkey(f, 'path mismatch continues'), ok,
               'a route whose pattern does not match is skipped before any other effect' if ok else
               'the loop does not start with "params = route.match_path(path); if params is None: continue"', app, dv.loop)
-    ok = norm(dv.match_st.value.args[0]) == 'url_path' and any(
-        isinstance(s, ast.Assign) and 'url_path' in [norm(x) for x in (s.targets[0].elts if isinstance(s.targets[0], ast.Tuple) else [s.targets[0]])]
-        and 'request.path' in norm(s.value) for s in stmts_of(f.node))
+    ok = bool(dv.match_call.args) and dv.is_request_attr(dv.match_call.args[0], 'path')
     rep.check('R06.b', fkey(f, 'matches request.path'), ok, 'patterns are matched against request.path' if ok else
               'match_path is not applied to request.path', app, dv.match_st)
     # (ii) method mismatch
     upd = dv.calls_stmt('update_methods', dv.ds_var)
-    mm_t = [nid for nid, t_, p_ in cfg.branches() if norm(t_) == dv.ma_var and p_ is False]
+    mm_t = dv.method_branches(False)
     exec_nodes = cfg.nodes_of(dv.exec_st)
     ok = bool(mm_t) and bool(upd) and cfg.must_pass(cfg.nodes_of_all(upd), mm_t, head, normal_only=True) and \
         not (set(exec_nodes) & cfg.reach(mm_t, avoid=head)) and \
@@ -149,14 +213,15 @@ def _rest(rep, repo, app, route, err, dv, cfg, f):
               'a method mismatch records route.methods (for the 405) and moves on without executing the route' if ok else
               'after a method mismatch the route\'s methods are not recorded on every path, or the route is executed anyway', app,
               upd[0] if upd else dv.method_st)
-    ok = norm(dv.method_st.value.args[0]) == 'method' and any(
-        isinstance(s, ast.Assign) and 'request.method' in norm(s.value) and 'method' in norm(s.targets[0]) for s in stmts_of(f.node))
+    ok = bool(dv.method_call.args) and dv.is_request_attr(dv.method_call.args[0], 'method')
     rep.check('R06.b', fkey(f, 'matches request.method'), ok, 'match_method is given request.method' if ok else
               'match_method is not applied to request.method', app, dv.method_st)
     # (iii) from execute back to the loop header
     addx = [s for s in dv.calls_stmt('add_exception', dv.ds_var) if norm(s.value.args[0]) == dv.ret_var]
-    brk_f = [nid for nid, t_, p_ in cfg.branches() if 'is_breaking' in norm(t_) and dv.ret_var in norm(t_) and p_ is False]
-    http_t = [nid for nid, t_, p_ in cfg.branches() if norm(t_) == 'isinstance(%s, HTTPException)' % dv.ret_var and p_ is True]
+    BRK = ("getattr(%s, 'is_breaking', True)" % dv.ret_var, '%s.is_breaking' % dv.ret_var)
+    is_brk = lambda t: isinstance(t, (ast.Call, ast.Attribute)) and 'is_breaking' in norm(t) and dv.ret_var in norm(t)
+    brk_f = dv.branches_where(is_brk, False)
+    http_t = dv.branches_where(lambda t: norm(t) == 'isinstance(%s, HTTPException)' % dv.ret_var, True)
     src = exec_nodes
     for label, nodes in (('dispatch_state.add_exception(ret)', cfg.nodes_of_all(addx)), ('"is_breaking" false', brk_f),
                          ('result is an HTTPException', http_t)):
@@ -170,21 +235,28 @@ def _rest(rep, repo, app, route, err, dv, cfg, f):
     rep.check('R06.b', fkey(f, 'non-breaking error continues'), ok, 'after recording a non-breaking error the next route is tried' if ok else
               'a non-breaking error does not lead to trying the next route', app, addx[0] if addx else dv.exec_st)
     # is_breaking default must be True (missing attribute => breaking)
-    bt = [n.test for n in cfg.nodes if n.kind == 'branch' and 'is_breaking' in norm(n.test)]
-    ok = bool(bt) and all(norm(t) in ("getattr(%s, 'is_breaking', True)" % dv.ret_var, '%s.is_breaking' % dv.ret_var) for t in bt)
+    bt = [t for n in cfg.nodes if n.kind == 'branch' for t, p in dv.branch_conds(n.id) if is_brk(t)]
+    ok = bool(bt) and all(norm(t) in BRK for t in bt)
     rep.check('R06.b', fkey(f, 'is_breaking default'), ok, 'errors are breaking unless marked otherwise' if ok else
               'is_breaking test changed: %s' % [norm(t) for t in bt], app, dv.exec_st)
     # (iv) dominance
-    cs = conds(f, dv.exec_st)
+    cs = dv.conds(dv.exec_st)
     ok = dv.method_ok_conds(cs) and dv.matched_conds(cs)
     rep.check('R06.b', fkey(f, 'execute guarded'), ok, 'a route is executed only if its pattern matched and its methods admit the request' if ok else
               'route.execute is reachable without a successful path and method test: %s' % '; '.join(cond_texts(cs)), app, dv.exec_st)
     br_ifs = [s for s in stmts_of(f.node) if isinstance(s, ast.If) and norm(s.test) == '%s.is_branch' % dv.route_var]
-    ok = bool(br_ifs) and all(dv.method_ok_conds(conds(f, s)) for s in br_ifs)
+    ok = bool(br_ifs) and all(dv.method_ok_conds(dv.conds(s)) for s in br_ifs)
     rep.check('R06.b', fkey(f, 'method test before slash handling'), ok, 'slash handling happens only for admitted methods' if ok else
               'slash handling is reachable before/without the method test', app, br_ifs[0] if br_ifs else dv.loop)
-    rep.floor('R06.b', 9)
+    # every request starts from its own dispatch state (R06.c)
+    ds_new = [s for s in stmts_of(f.node) if isinstance(s, ast.Assign) and isinstance(s.value, ast.Call) and call_name(s.value) == 'DispatchState']
+    ok = len(ds_new) == 1 and not cfg.reach(cfg.nodes_of(ds_new[0]), include_src=False) & set(cfg.nodes_of(ds_new[0])) and \
+        cfg.must_pass(cfg.nodes_of(ds_new[0]), cfg.entry, head)
+    rep.check('R06.c', fkey(f, 'fresh DispatchState'), ok, 'one fresh DispatchState per dispatch, created before the loop' if ok else
+              'DispatchState is not created once per request before the loop', app, ds_new[0] if ds_new else f.node)
 
+
+def _sentinel_rules(rep, repo, app, route):
     # ---- R06.c -----------------------------------------------------------
     hs = route.func('NullRoute.handle_sentinel_condition')
     ds = [p for p in hs.params() if 'dispatch_state' in p]
@@ -194,15 +266,14 @@ def _rest(rep, repo, app, route, err, dv, cfg, f):
     is_exc = lambda t: norm(t) == '%s.exceptions' % ds
     is_am = lambda t: norm(t) == '%s.allowed_methods' % ds
     kinds = {}
-    aliases = dict((norm(s.targets[0]), norm(s.value)) for s in stmts_of(hs.node) if isinstance(s, ast.Assign))
+    res = lambda e: resolve_local(hs.node, e)
     for r in returns_of(hs):
         v = r.value
         cs = conds(hs, r)
-        txt = norm(v)
-        if isinstance(v, ast.Subscript) and norm(v.value) == '%s.exceptions' % ds:
+        if isinstance(v, ast.Subscript) and norm(res(v.value)) == '%s.exceptions' % ds:
             kinds['exc'] = (r, cs, norm(v.slice))
         elif isinstance(v, ast.Call):
-            callee = aliases.get(norm(v.func), norm(v.func))
+            callee = norm(res(v.func))
             if callee.endswith('method_not_allowed_type'):
                 kinds['405'] = (r, cs, v)
             elif callee.endswith('not_found_type'):
@@ -211,7 +282,7 @@ def _rest(rep, repo, app, route, err, dv, cfg, f):
     rep.check('R06.c', fkey(hs, 'last exception'), ok, 'recorded non-breaking errors win, and the most recent one is used' if ok else
               'the sentinel does not return exceptions[-1] when errors were recorded', route, kinds.get('exc', (hs.node,))[0])
     ok = '405' in kinds and has_cond(kinds['405'][1], is_exc, False) and has_cond(kinds['405'][1], is_am, True) and \
-        norm(kwarg(kinds['405'][2], 'allowed_methods')) == '%s.allowed_methods' % ds
+        kwarg(kinds['405'][2], 'allowed_methods') is not None and norm(res(kwarg(kinds['405'][2], 'allowed_methods'))) == '%s.allowed_methods' % ds
     rep.check('R06.c', fkey(hs, '405'), ok, 'else, if methods were recorded: 405 built with allowed_methods=dispatch_state.allowed_methods' if ok else
               'the 405 branch is missing, mis-ordered, or not given the recorded methods', route, kinds.get('405', (hs.node,))[0])
     ok = '404' in kinds and has_cond(kinds['404'][1], is_exc, False) and has_cond(kinds['404'][1], is_am, False)
@@ -243,25 +314,65 @@ def _rest(rep, repo, app, route, err, dv, cfg, f):
     ok = asg.get('self.exceptions') == '[]' and asg.get('self.allowed_methods') == 'set()'
     rep.check('R06.c', fkey(dsi), ok, 'every request starts with an empty dispatch state' if ok else
               'DispatchState does not start empty: %s' % asg, app, dsi.node)
-    ds_new = [s for s in stmts_of(f.node) if isinstance(s, ast.Assign) and isinstance(s.value, ast.Call) and call_name(s.value) == 'DispatchState']
-    ok = len(ds_new) == 1 and not cfg.reach(cfg.nodes_of(ds_new[0]), include_src=False) & set(cfg.nodes_of(ds_new[0])) and \
-        cfg.must_pass(cfg.nodes_of(ds_new[0]), cfg.entry, head)
-    rep.check('R06.c', fkey(f, 'fresh DispatchState'), ok, 'one fresh DispatchState per dispatch, created before the loop' if ok else
-              'DispatchState is not created once per request before the loop', app, ds_new[0] if ds_new else f.node)
 
+
+def _method_rules(rep, repo, app, route):
     # ---- R06.d -----------------------------------------------------------
     ri = route.func('Route.__init__')
+    rres = lambda e: resolve_local(ri.node, e)
+
+    def upper_set(e):
+        """``e`` builds a set of the upper-cased members of a local: returns that local's name, else None."""
+        e = rres(e)
+        comp = e if isinstance(e, ast.SetComp) else \
+            e.args[0] if isinstance(e, ast.Call) and call_name(e) == 'set' and len(e.args) == 1 and not e.keywords and \
+            isinstance(e.args[0], (ast.ListComp, ast.GeneratorExp, ast.SetComp)) else None
+        if comp is None or len(comp.generators) != 1 or comp.generators[0].ifs or not isinstance(comp.generators[0].iter, ast.Name) or \
+                not isinstance(comp.generators[0].target, ast.Name):
+            return None
+        if norm(comp.elt) != '%s.upper()' % comp.generators[0].target.id:
+            return None
+        return comp.generators[0].iter.id
     ms = [s for s in stmts_of(ri.node) if isinstance(s, ast.Assign) and norm(s.targets[0]) == 'self.methods']
-    ok = len(ms) == 1 and '.upper()' in norm(ms[0].value) and 'set(' in norm(ms[0].value)
+    raw = None            # the local holding the declared methods
+    holders = {'self.methods'}    # expressions denoting the set that ends up in self.methods
+    n_set, ok = 0, bool(ms)
+    for s_ in ms:
+        v, cs = s_.value, conds(ri, s_)
+        if isinstance(v, ast.BoolOp) and isinstance(v.op, ast.And) and len(v.values) == 2 and isinstance(v.values[0], ast.Name) and \
+                upper_set(v.values[1]) == v.values[0].id:
+            raw, n_set = v.values[0].id, n_set + 1            # methods and set(m.upper() for m in methods)
+        elif upper_set(v) is not None and implies_present(cs, upper_set(v)):
+            raw, n_set = upper_set(v), n_set + 1              # (methods truthy)  set(...)
+            if isinstance(v, ast.Name):
+                holders.add(v.id)
+        elif isinstance(v, ast.Name) and implies_absent(cs, v.id):
+            pass                                              # (methods falsy)   self.methods = methods
+        elif isinstance(v, ast.Constant) and v.value is None:
+            pass
+        else:
+            ok = False
+    ok = ok and n_set == 1
     rep.check('R06.d', fkey(ri, 'upper-cased set'), ok, 'declared methods are upper-cased into a set' if ok else
               'Route.__init__ does not upper-case the declared methods', route, ms[0] if ms else ri.node)
+
+    def unknown_of(e, depth=0):
+        """``e`` is (a list / sorted list / the set itself of) <the method set> minus HTTP_METHODS"""
+        e = rres(e)
+        if isinstance(e, ast.Call) and call_name(e) in ('list', 'sorted', 'tuple', 'set', 'frozenset') and len(e.args) == 1 and depth < 2:
+            return unknown_of(e.args[0], depth + 1)
+        if isinstance(e, ast.BinOp) and isinstance(e.op, ast.Sub):
+            return norm(e.left) in holders and norm(e.right) == 'HTTP_METHODS'
+        if isinstance(e, ast.Call) and call_tail(e) == 'difference' and len(e.args) == 1:
+            return norm(e.func.value) in holders and norm(e.args[0]) == 'HTTP_METHODS'
+        return False
     rz = [r for r in raises_of(ri) if raise_type(r) == 'InvalidMethod']
-    ok = bool(rz) and any('HTTP_METHODS' in norm(s.value) and '-' in norm(s.value) for s in stmts_of(ri.node) if isinstance(s, ast.Assign))
+    ok = bool(rz) and all(any(p is True and unknown_of(t) for t, p in conds(ri, r)) for r in rz)
     rep.check('R06.d', fkey(ri, 'unknown methods rejected'), ok, 'methods outside HTTP_METHODS raise InvalidMethod' if ok else
               'unknown method names are not rejected', route, ri.node)
-    heads = [c for c in walk_body(ri.node) if isinstance(c, ast.Call) and norm(c.func) == 'self.methods.add' and
-             isinstance(c.args[0], ast.Constant) and c.args[0].value == 'HEAD']
-    ok = len(heads) == 1 and has_cond(conds(ri, heads[0]), lambda t: norm(t) == "'GET' in self.methods", True)
+    heads = [c for c in walk_body(ri.node) if isinstance(c, ast.Call) and call_tail(c) == 'add' and isinstance(c.func, ast.Attribute) and
+             norm(c.func.value) in holders and len(c.args) == 1 and isinstance(c.args[0], ast.Constant) and c.args[0].value == 'HEAD']
+    ok = len(heads) == 1 and has_cond(conds(ri, heads[0]), lambda t: norm(t) == "'GET' in %s" % norm(heads[0].func.value), True)
     rep.check('R06.d', fkey(ri, 'GET implies HEAD'), ok, 'a GET route also admits HEAD' if ok else 'GET routes no longer admit HEAD', route, ri.node)
     hm = set(route.const('HTTP_METHODS'))
     need = {'GET', 'HEAD', 'POST', 'PUT', 'DELETE', 'OPTIONS', 'TRACE', 'CONNECT', 'PATCH'}
@@ -270,13 +381,36 @@ def _rest(rep, repo, app, route, err, dv, cfg, f):
     mmf = route.func('BoundRoute.match_method')
     mcfg = cfg_of(mmf)
     mp = mmf.params()[1]
-    falses = [r for r in returns_of(mmf) if isinstance(r.value, ast.Constant) and r.value.value is False]
-    trues = [r for r in returns_of(mmf) if isinstance(r.value, ast.Constant) and r.value.value is True]
-    ok = len(falses) == 1 and bool(trues)
-    if ok:
-        cs = conds(mmf, falses[0])
-        ok = has_cond(cs, lambda t: norm(t) == '%s.upper() not in self.methods' % mp, True) and \
-            has_cond(cs, lambda t: norm(t) == 'self.methods', True)
+    mres = lambda e: resolve_local(mmf.node, e)
+
+    def member(t):
+        """True / False: comparison ``t`` true means METHOD.upper() is / is not in self.methods; None: another test"""
+        if isinstance(t, ast.Compare) and len(t.ops) == 1 and isinstance(t.ops[0], (ast.In, ast.NotIn)) and \
+                norm(mres(t.left)) == '%s.upper()' % mp and norm(mres(t.comparators[0])) == 'self.methods':
+            return isinstance(t.ops[0], ast.In)
+        return None
+
+    def methods_nonempty(cs):
+        return any(p is True and norm(mres(t)) == 'self.methods' for t, p in cs)
+    refusals, admits, unknown = [], [], []
+    for r in returns_of(mmf):
+        v, cs = r.value, conds(mmf, r)
+        if isinstance(v, ast.Constant) and v.value is True:
+            admits.append(r)
+        elif isinstance(v, ast.Constant) and v.value is False:
+            # refused: the membership test failed on this path, and there are methods to compare with
+            refusals.append(any(member(t) is not None and member(t) is not p for t, p in cs) and methods_nonempty(cs))
+        elif v is not None and not isinstance(v, ast.Constant):
+            # the answer is an expression: it refuses when the expression is false, which must say that the membership
+            # test failed and that there are methods to compare with (``not (m and ms) or m.upper() in ms`` included)
+            from ..cfg import expand_conds
+            cs2 = cs + expand_conds([(v, False)])
+            refusals.append(any(member(t) is not None and member(t) is not p for t, p in cs2) and methods_nonempty(cs2))
+            admits.append(r)
+        else:
+            unknown.append(r)
+    ok = bool(refusals) and all(refusals) and bool(admits) and not unknown and \
+        mcfg.must_pass(mcfg.nodes_of_all(returns_of(mmf)), mcfg.entry, mcfg.exit, normal_only=True)
     rep.check('R06.d', fkey(mmf), ok, 'a request is refused only if methods is non-empty and METHOD.upper() is not in it' if ok else
               'match_method no longer compares the upper-cased request method against a non-empty method set', route, mmf.node)
     for q in ('GET', 'POST', 'PUT', 'DELETE', 'HEAD', 'OPTIONS', 'TRACE', 'CONNECT', 'PATCH'):
@@ -288,8 +422,9 @@ def _rest(rep, repo, app, route, err, dv, cfg, f):
         ok = len(m) == 1 and repo.try_fold(m[0].value, route) in ((q,), [q])
         rep.check('R06.d', '%s::%s' % (ROUTE, q), ok, 'convenience class %s declares method %s' % (q, q) if ok else
                   'convenience route class %s declares %s' % (q, norm(m[0].value) if m else None), route, ci.node)
-    rep.floor('R06.d', 12)
 
+
+def _allow_rules(rep, repo, err):
     # ---- R06.e -----------------------------------------------------------
     eh = err.cls('ErrorHandler')
     dc, val = repo.class_attr(eh, 'method_not_allowed_type')
@@ -313,7 +448,17 @@ def _rest(rep, repo, app, route, err, dv, cfg, f):
     detail = 'no store to an Allow header in %s or its bases' % mna.name
     if ok:
         fi, s = stores[0]
+        # what the stored value is computed from, through the locals of the constructor
         dep = names_loaded(s) | set(n.attr for n in ast.walk(s) if isinstance(n, ast.Attribute))
+        grew = True
+        while grew:
+            grew = False
+            for x in stmts_of(fi.node):
+                if isinstance(x, ast.Assign) and any(isinstance(t, ast.Name) and t.id in dep for t in x.targets):
+                    more = (names_loaded(x.value) | set(n.attr for n in ast.walk(x.value) if isinstance(n, ast.Attribute))) - dep
+                    if more:
+                        dep |= more
+                        grew = True
         ok = 'allowed_methods' in dep
         detail = 'the Allow value does not depend on allowed_methods: %s' % short(s)
         if ok:
@@ -324,7 +469,10 @@ def _rest(rep, repo, app, route, err, dv, cfg, f):
             detail = 'the Allow header is stored before BaseResponse.__init__ created the headers'
         if ok:
             am = [x for x in stmts_of(fi.node) if isinstance(x, ast.Assign) and norm(x.targets[0]) == 'self.allowed_methods']
-            ok = len(am) == 1 and fi.params()[1] in names_loaded(am[0].value)
+            prm = fi.params()[1]
+            # every assignment takes the constructor argument, or is the empty set on the side where there is none
+            ok = bool(am) and any(prm in names_loaded(x.value) for x in am) and \
+                all(prm in names_loaded(x.value) or (norm(x.value) in ('set()', 'set([])', 'set(())') and implies_absent(conds(fi, x), prm)) for x in am)
             detail = 'self.allowed_methods is not the constructor argument'
     rep.check('R06.e', '%s::%s::Allow' % (ERR, mna.name), ok,
               'the 405 response stores a value derived from allowed_methods under the Allow header' if ok else detail, err,
